@@ -299,17 +299,37 @@ def parse_where(p, nparam):
             else:
                 op = p.eat()
                 if op == '<':
-                    p.eat('>')
-                    op = '!='
+                    if p.opt('>'):
+                        op = '!='
+                    elif p.opt('='):
+                        op = '<='
+                elif op == '>':
+                    if p.opt('='):
+                        op = '>='
                 elif op == '!':
                     p.eat('=')
                     op = '!='
                 elif op != '=':
                     raise Unparsed('comparison operator %s' % op)
-                kind = 'eq' if op == '=' else 'ne'
+                kind = {'=': 'eq', '!=': 'ne', '<': 'lt', '<=': 'le', '>': 'gt', '>=': 'ge'}[op]
                 if p.opt('?'):
-                    conj.append((kind, c, ('param', nparam)))
-                    nparam += 1
+                    if re.match(r'^\d+$', p.peek() or ''):
+                        # numbered parameter ?N
+                        k = int(p.eat())
+                        conj.append((kind, c, ('param', k - 1)))
+                        nparam = max(nparam, k)
+                    else:
+                        conj.append((kind, c, ('param', nparam)))
+                        nparam += 1
+                elif p.opt('('):
+                    # scalar sub-select: (SELECT col FROM t WHERE ...)
+                    p.eat('SELECT')
+                    sc = p.ident()
+                    p.eat('FROM')
+                    st = p.ident()
+                    sub, nparam = parse_where(p, nparam)
+                    p.eat(')')
+                    conj.append((kind, c, ('sub', (st, sc, sub))))
                 else:
                     t = p.eat()
                     if t.startswith("'"):
@@ -499,6 +519,8 @@ def cond_expr(w, name, row, t, conj, tables, order, col_index):
     parts = []
     for c in conj:
         kind = c[0]
+        if kind in ('lt', 'le', 'gt', 'ge') or c[1].lower() == 'rowid' or (len(c) > 2 and isinstance(c[2], tuple) and c[2][0] == 'sub'):
+            raise Unparsed('ordering comparison / rowid / scalar sub-select (modelled by engine Q only)')
         ci = col_index(t, c[1])
         if kind in ('eq', 'ne'):
             rhs = c[2]
